@@ -64,7 +64,7 @@ def dmrg_matvec_python(A, x, y0 = None, nswp = 20, eps = 1e-12, rmax = 32768, ki
     if y0 == None:
         y0 = torchtt.random(A.M,2, dtype=A.cores[0].dtype, device = A.cores[0].device)
 
-    y_cores = y0.cores
+    y_cores = list(y0.cores)
     Ry = y0.R.copy()
 
     d = len(x.N)
@@ -251,7 +251,7 @@ def dmrg_hadamard_python(z, x, y0 = None, nswp = 20, eps = 1e-12, rmax = 32768, 
     """
     if y0 == None:
         y0 = torchtt.random(z.N, 2, dtype = z.cores[0].dtype, device = z.cores[0].device)
-    y_cores = y0.cores
+    y_cores = list(y0.cores)
     Ry = y0.R.copy()
     
     d = len(x.N)
